@@ -262,7 +262,9 @@ impl CompiledItem {
                             .replace('\\', "\\\\")
                             .replace('"', "\\\"")
                             .replace('\n', "\\n")
-                            .replace('\r', "\\r");
+                            .replace('\r', "\\r")
+                            // a NUL ends a record of the bytecode file: inside an argument it is written as `\0`
+                            .replace('\0', "\\0");
                         let arg = fix_arg_if_needed(&replaced)?;
                         args.push_str(arg.as_ref());
                     }
